@@ -1,41 +1,61 @@
 /-
 Driver/C11.lean — line-protocol driver for the actions.
-in : {"case": n, "table": Table, "steps": [Step], "n": k, "names": [String]}
-out: model's count / isEmpty / first / head(n) / show(n) for the DataFrame built by the steps, the
-     specification's rows, and `_unique_field_names` of `names`.
+in : {"case": n, "env": [Table], "prog": Prog, "n": k, "names": [String]}
+     (a chain of steps over one table is the program `step (… (step (base 0) s₁) …) sₖ`)
+out: for the DataFrame the program builds (`Prog.run11`): the model's collect / count / isEmpty / first / head(n) /
+     limit(n).collect() / show(n); the sequential meaning `Prog.sem`; whether the program is inside `C11_tree`
+     (`wf`); the LIMITs sitting in CTE bodies of the statement (`innerLimits`, oldest first) and the LIMIT that
+     `limit(10^6)` leaves on the outer SELECT (`probe`: what `limit` found to merge with, under `Gen.limitLookup`);
+     `_unique_field_names` of `names` and of the result's columns; the violated scope hypotheses.
 -/
-import SqlframeModel.Codec.C01
-import SqlframeModel.Impl.C11
+import SqlframeModel.Codec.C07
+import SqlframeModel.Impl.C11Tree
 open Lean Sqlframe
 
 structure Case where
   case : Nat
-  table : Table
-  steps : List Step
+  env : List Table
+  prog : Prog
   n : Nat
   names : List String
   deriving FromJson
 
 def rowsJson (rs : List Row) : Json := Json.arr (rs.map (fun r => Json.arr (r.map Val.toPlain).toArray)).toArray
 
+/-- an `orderBy` called directly on an `orderBy` somewhere in the program (determinism scope of C01) -/
+def adjacentOrderBy : Prog → Bool
+  | .base _ => false
+  | .step p s => (s.isOrderBy && p.topOrderBy) || adjacentOrderBy p
+  | .setop _ l r => adjacentOrderBy l || adjacentOrderBy r
+  | .byName _ l r => adjacentOrderBy l || adjacentOrderBy r
+
+def probeN : Nat := 1000000
+
 def handle (line : String) : String :=
   match Json.parse line >>= fromJson? (α := Case) with
   | .error e => Json.compress (Json.mkObj [("err", toJson s!"bad-input: {e}")])
   | .ok c =>
-    let d := (DF.init c.table).run c.steps
-    let s := specRun c.table c.steps
+    let d := c.prog.run11 c.env
+    let s := c.prog.sem c.env
     let sh := showModel d c.n
     Json.compress (Json.mkObj [
       ("case", toJson c.case),
+      ("collect", d.eval.toPlain),
       ("count", toJson (countModel d)),
       ("isEmpty", toJson (isEmptyModel d)),
       ("first", match firstRow d with | none => Json.null | some r => Json.arr (r.map Val.toPlain).toArray),
       ("head", rowsJson (headRows d (some c.n))),
+      ("limit", rowsJson (limitRows d c.n)),
       ("showNames", toJson sh.1),
       ("showRows", rowsJson sh.2),
       ("unique", toJson (uniqueFieldNames c.names)),
+      ("uniqueCols", toJson (uniqueFieldNames s.cols)),
       ("spec", s.toPlain),
-      ("scope", toJson ((violated c.steps) ++ (if H_showNonEmpty d c.n then [] else ["H_showNonEmpty"])))])
+      ("wf", toJson (decide (c.prog.WF11 c.env))),
+      ("innerLimits", toJson (histLimits d.hist)),
+      ("probe", toJson (d.limit11 probeN).blk.limit),
+      ("scope", toJson ((if adjacentOrderBy c.prog then ["D_adjacentOrderBy"] else []) ++
+                        (if H_showNonEmpty d c.n then [] else ["H_showNonEmpty"])))])
 
 partial def loop (h : IO.FS.Stream) (out : IO.FS.Stream) : IO Unit := do
   let line ← h.getLine
